@@ -137,8 +137,31 @@ class Ctx:
         return res.ok and not probs
 
     # ------------------------------------------------------------------ tie K
+    def ensure_built(self, text):
+        """Build every project module a scratch file imports (`From PK|PKGen|PKProps Require Import A.B C.`)."""
+        roots = {'PK': 'theories', 'PKGen': 'gen', 'PKProps': 'props'}
+        targets = []
+        for m in re.finditer(r'From\s+(PK|PKGen|PKProps)\s+Require\s+(?:Import|Export)\s+([\w.\s]+?)\.(?=\s|$)', text):
+            for mod in m.group(2).split():
+                f = roots[m.group(1)] + '/' + mod.replace('.', '/') + '.v'
+                if f not in targets:
+                    targets.append(f)
+        key = tuple(targets)
+        if not targets or key in getattr(self, '_built', set()):
+            return True
+        res = coqbuild.build(targets)
+        if not res.ok:
+            for f, tail in res.failed:
+                if tail != 'dependency failed':
+                    self.broken.append({'kind': 'obligation', 'name': f, 'detail': tail[-3000:], 'candidates': []})
+            return False
+        self._built = getattr(self, '_built', set()) | {key}
+        return True
+
     def coq_eval(self, name, text, timeout=600):
         """Compile a scratch file; returns (ok, stdout, stderr)."""
+        if not self.ensure_built(text):
+            return False, '', 'a module imported by the case file does not build'
         p = self.work / (name + '.v')
         p.write_text(text)
         rc, out, err = coqbuild.run_coqc_text(p, timeout)
@@ -175,6 +198,7 @@ class Ctx:
 
         t0 = time.time()
         bad_all, failed = [], []
+        self.ensure_built(header)
         with ThreadPoolExecutor(max_workers=16) as ex:
             for base, bad, err in ex.map(one, enumerate(shards)):
                 if bad is None:
